@@ -24,3 +24,8 @@ fn smoke_unwind() {
     while i < n { i += 1; }
     assert!(i == n);
 }
+#[cfg(alexhuszagh_rust_lexical_verif)]
+#[kani::proof]
+fn smoke_hook_cfg() {
+    assert!(1 + 1 == 2);
+}
